@@ -83,8 +83,35 @@ def write_replay(prop, harness, viol):
     return path
 
 
+PINNED_COMMIT = "cb4fb7e"
+
+
+def _line_map(relpath, cur_path):
+    """pinned line number -> current line number (properties.jsonl anchors refer to the pinned
+    commit; fix commits and mutants shift lines).  Identity if git is unavailable."""
+    import difflib
+    import subprocess
+    try:
+        old = subprocess.run(["git", "-C", "/repo", "show", "%s:src/traffic_weaver/%s" % (PINNED_COMMIT, relpath)],
+                             capture_output=True, text=True, timeout=20)
+        if old.returncode != 0:
+            return None
+        a = old.stdout.splitlines()
+        with open(cur_path) as f:
+            b = f.read().splitlines()
+    except Exception:
+        return None
+    m = {}
+    for tag, i1, i2, j1, j2 in difflib.SequenceMatcher(None, a, b, autojunk=False).get_opcodes():
+        if tag == "equal":
+            for k in range(i2 - i1):
+                m[i1 + k + 1] = j1 + k + 1
+    return m
+
+
 def anchor_report(mod, lines):
-    """Which of the property's anchored mechanism lines were executed at least once."""
+    """How many of the property's anchored mechanism lines (pinned numbering, mapped to the
+    current file) were executed at least once."""
     out = {}
     anchors = getattr(mod, "ANCHORS", {})
     if not anchors:
@@ -96,8 +123,13 @@ def anchor_report(mod, lines):
         by_file.setdefault(fn, set()).add(ln)
     for fn, ranges in anchors.items():
         hit = by_file.get(fn, set())
+        lm = _line_map(fn, os.path.join(base, fn))
         for (a, b) in ranges:
-            out["%s:%d-%d" % (fn, a, b)] = len([l for l in hit if a <= l <= b])
+            if lm is None:
+                cur = set(range(a, b + 1))
+            else:
+                cur = {lm[l] for l in range(a, b + 1) if l in lm}
+            out["%s:%d-%d" % (fn, a, b)] = len(hit & cur)
     return out
 
 
